@@ -22,6 +22,7 @@ namespace EPV.MapArray.Spec
 4. both xs:boolean (hexBinary, … not in this key domain) and `eq`. -/
 def sameKey : Key → Key → Bool
   | .str a, .str b | .str a, .uri b | .uri a, .str b | .uri a, .uri b => a == b
+  | .unt a, .str b | .unt a, .uri b | .unt a, .unt b | .str a, .unt b | .uri a, .unt b => a == b
   | .dnan, .dnan => true
   | .dinf a, .dinf b => a == b
   | .int a, .int b => a == b
@@ -180,6 +181,7 @@ def atomDeepEqual (a b : Key) : Bool :=
     | some (none, false, n), some (none, false, m) => n == m
     | _, _ => false
   | .str s, .str t | .str s, .uri t | .uri s, .str t | .uri s, .uri t => s == t
+  | .unt s, .str t | .unt s, .uri t | .unt s, .unt t | .str s, .unt t | .uri s, .unt t => s == t
   | .bool x, .bool y => x == y
   | .date _ u _, .date _ u' _ => u == u'
   | .opq t r, .opq t' r' => t == t' && r == r'
